@@ -4,6 +4,15 @@ usage: seed_prompt.py Cxx  (worktree /tmp/seed/wt-Cxx, output /tmp/seed/out-Cxx)
 import json, sys
 pid = sys.argv[1]
 rnd = sys.argv[2] if len(sys.argv) > 2 else ""      # e.g. "r2-": worktree /tmp/seed/wt-r2-Cxx
+# VARIANT: round 3 asks for mechanisms that need two cooperating sites or an unusual configuration
+extra = ""
+if rnd.startswith("r3"):
+    extra = (" In this round at least one of your changes must be of one of these kinds: (i) two cooperating code sites that each look "
+             "fine alone (a helper whose contract silently changes and a caller relying on the old one); (ii) a change that only matters "
+             "under an unusual but legitimate configuration (a cargo feature combination, generic contracts or interfaces with associated "
+             "types, chain-custom message/query types, a renamed dependency, legacy (non-`replies`) reply handlers, several interfaces on "
+             "one contract); (iii) a change in boundary handling (empty lists, zero handlers of a kind, a single-element collection, the "
+             "first or last element).")
 for l in open('/verif/properties.jsonl'):
     d = json.loads(l)
     if d['id'] == pid:
@@ -31,6 +40,6 @@ DELIVERABLES, all in {out}/ :
   - patch.diff : `git diff` of your change to sylvia's source only (NOT including the demo test)
   - demo.rs (the demonstration test file; say in README where it has to be placed to run, e.g. sylvia/tests/seeded_demo.rs, and the exact cargo command)
   - README.md : which clause of the property is broken, what specific circumstance it needs to manifest, the commands you ran and their observed results (baseline suite with patch: pass; demo without patch: pass; demo with patch: fail + the failure message).
-Prefer, where the property allows it, a less central code path (interface-side generation, generics handling, custom chain types, multitest helpers, the run-time library under sylvia/src, feature-gated branches) over the single most obvious function. If you have time left after one solid change, add a second, different one as patch2.diff / demo2.rs (a different mechanism, not a variation). Quality over quantity.
+Prefer, where the property allows it, a less central code path (interface-side generation, generics handling, custom chain types, multitest helpers, the run-time library under sylvia/src, feature-gated branches) over the single most obvious function. """ + extra + """ If you have time left after one solid change, add a second, different one as patch2.diff / demo2.rs (a different mechanism, not a variation). Quality over quantity.
 
 At the end, leave the worktree with NO change applied (git checkout -- . and remove your demo test from it), and reply with a short summary of each patch (what it changes, what it needs to manifest).""")
